@@ -43,7 +43,7 @@ type caseRunner struct {
 }
 
 func newCaseRunner(b *built, mk func(*memStore) poolAPI, out sink) *caseRunner {
-	return &caseRunner{b: b, st: &memStore{utxo: b.confirmed}, mk: mk, out: out}
+	return &caseRunner{b: b, st: newMemStore(b.confirmed), mk: mk, out: out}
 }
 
 // run executes one history: ops, optionally a re-submission of every node in
